@@ -1,7 +1,9 @@
 """C03 - messages survive render-then-parse; compression is sound."""
 import struct
 
+import dns.flags
 import dns.message
+import dns.rrset
 import dns.name
 import dns.opcode
 import dns.rcode
@@ -59,6 +61,23 @@ def cases(ctx):
         origin = None if rng.random() < 0.7 else [b"big", b"example", b""]
         msgs.append(("big", g.gen_big(rng, origin), origin))
     msgs += builder_messages(rng)
+    # an OPT record whose advertised payload is SMALLER than the message itself (the payload is what the
+    # sender can receive, not a limit for rendering the message that carries it)
+    for i in range(ctx.n(6, 30)):
+        payload = rng.choice([512, 512, 1232, 4096])
+        origin = None if rng.random() < 0.8 else [b"sp", b"example", b""]
+        am = g.gen_query_like(rng, origin, "small", opcode=rng.choice([0, 0, 4]))
+        am[3] = [rng.choice([0, 0x8000]), payload, rng.choice([[], [[65001, b"\x01"]]])]
+        target = payload + rng.choice([1, 50, 400, 900])
+        rds, tot = [], 0
+        while tot < target:
+            sdata = bytes([255]) + bytes(rng.randrange(256) for _ in range(255))
+            if [sdata] not in rds:
+                rds.append([sdata])
+                tot += 266
+        own = [b"bigtxt%d" % i] + ([b""] if origin is None else [])
+        am[2][rng.choice([1, 2, 3])].append([own, g.IN, g.TXT, 0, None, 120, rds])
+        msgs.append(("small-payload", am, origin))
     for kind, am, origin in msgs:
         ctx.count("msg:" + kind)
         pad = 0
@@ -130,6 +149,18 @@ def builder_messages(rng):
     u2.absent("b.example.com.", "MX")
     u2.delete("d.example.com.")
     out.append(("builder-meta", g.message_abs(u2), None))
+    for how in ("ednsflags", "want_dnssec"):
+        b = dns.message.make_query("big.example.", "TXT")
+        b.id = 4661
+        b.flags |= dns.flags.QR
+        if how == "ednsflags":
+            b.ednsflags = dns.flags.DO
+        else:
+            b.want_dnssec(True)
+        txt = dns.rrset.from_text_list("big.example.", 60, "IN", "TXT",
+                                       ['"%s"' % (chr(97 + k) * 250) for k in range(8)])
+        b.answer.append(txt)
+        out.append(("builder", g.message_abs(b), None))
     return out
 
 
@@ -254,6 +285,18 @@ def oracle(ctx, kind, case, out):
     if op == 7:
         g.check_rseq(case, out, fail)
         return F
+    if op == 1:
+        # the effective limit: max_size, else the request payload, else 65535 (clamped to 512..65535); the
+        # advertised payload of the message's own OPT record is NOT a limit for rendering it
+        _, am_, origin_, max_size_, reqp_, prefer_, pad_ = case
+        eff = min(max(max_size_ if max_size_ else (reqp_ if reqp_ else 65535), 512), 65535)
+        ref = g.run_render(am_, origin_, eff, 0, prefer_, pad_)
+        if normalize(out) != normalize(ref):
+            fail("max_size=%d request_payload=%d is not rendered like the effective limit %d" % (max_size_, reqp_, eff),
+                 sig="limit", got=(out.text if isinstance(out, Err) else len(out)),
+                 expected=(ref.text if isinstance(ref, Err) else len(ref)))
+            if isinstance(out, Err) and not isinstance(ref, Err):
+                out = ref       # go on with the clauses on the rendering at the effective limit
     if isinstance(out, Err):
         if out.code >= 100 and op in (1, 4):
             fail("unexpected exception " + out.text)
@@ -388,7 +431,15 @@ def oracle(ctx, kind, case, out):
     # (a padded and signed rendering leaves the TSIG owner uncompressed; the parsed message does not
     #  carry the padding configuration, so that combination is outside the re-render clause)
     if w2 != w and not (pad != 0 and tsig is not None):
-        fail("re-rendering the parsed message does not reproduce the octets", sig="rerender")
+        fail("re-rendering the parsed message does not reproduce the octets", sig="rerender",
+             got=("exception" if w2 is None else len(w2)), length=len(w))
+    else:
+        try:
+            w3 = p.to_wire(origin=None if origin is None else g.N(origin), want_shuffle=False, prefer_truncation=True)
+        except Exception as e:  # noqa
+            w3 = None
+        if w3 != w2:
+            fail("re-rendering the parsed message with prefer_truncation (no size limit given) loses octets", sig="rerender")
     # --- rendering does not change the message object: the same object rendered twice gives the
     #     same octets, and its flags and records are what they were
     try:
